@@ -620,6 +620,26 @@ impl<'a, T: Transport> Transferrer<'a, T> {
         }
     }
 
+    /// Whether the link mode leaves a symlink entry out of the destination: skip mode, or follow
+    /// mode with a target that does not resolve to a file. (Also true of what a dry run would do:
+    /// a dry run reported every followed link as skipped, the real run then created it.)
+    pub fn symlink_is_left_out(&self, source: &FileEntry) -> bool {
+        match self.symlink_mode {
+            SymlinkMode::Skip => true,
+            SymlinkMode::Preserve => false,
+            SymlinkMode::Follow => match source.symlink_target {
+                Some(ref raw_target) => {
+                    let resolved = match source.path.parent() {
+                        Some(dir) if raw_target.is_relative() => dir.join(raw_target),
+                        _ => raw_target.clone(),
+                    };
+                    !resolved.exists() || resolved.is_dir()
+                }
+                None => true,
+            },
+        }
+    }
+
     async fn handle_symlink(
         &self,
         source: &FileEntry,
